@@ -61,6 +61,80 @@ func c20(c *Ctx) {
 	add("api", "HTTP", "HTTP.getMessagesRequestsMu", "getMessagesRequests")
 	add("api", "HTTP", "HTTP.throttleMu", "lastWrongPassword", "throttlingExponent")
 	add("main", "FSM", "FSM.sessionExpirationMu", "sessionExpirationDur")
+	// ---------- Q6 package-level variables: the lock table covers struct fields; a package-level variable of the packages the
+	// state machine and the API run in is shared by every goroutine (and every server instance) without any lock. Outside
+	// init functions and start-up code such a variable is not written — assigned, incremented, written through an index or
+	// a field, or handed out by address (a scratch buffer "to save an allocation")
+	{
+		allowedPV := map[string]string{
+			"api.nodeProxies": "the proxy cache: written in setNodeProxy under nodeProxiesMu, which the functions named in Q1 hold",
+		}
+		nPV := 0
+		for _, pk := range []string{"robust", "config", "ircserver", "outputstream", "raftstore", "raftlog", "api", "timesafeguard"} {
+			for _, fi := range c.P.FuncsIn(pk) {
+				if fi.Body() == nil || (fi.Decl != nil && fi.Decl.Name.Name == "init") {
+					continue
+				}
+				info := fi.Info()
+				isPV := func(e ast.Expr) *types.Var {
+					for {
+						switch x := ast.Unparen(e).(type) {
+						case *ast.SelectorExpr:
+							if info.Selections[x] == nil {
+								return nil // pkg.Var of another package
+							}
+							e = x.X
+							continue
+						case *ast.IndexExpr:
+							e = x.X
+							continue
+						case *ast.StarExpr:
+							e = x.X
+							continue
+						case *ast.Ident:
+							if v, ok := info.Uses[x].(*types.Var); ok && !v.IsField() && v.Pkg() != nil && v.Parent() == v.Pkg().Scope() && strings.HasPrefix(v.Pkg().Path(), load.ModPath) {
+								return v
+							}
+						}
+						return nil
+					}
+				}
+				report := func(v *types.Var, at ast.Node, how string) {
+					if v == nil {
+						return
+					}
+					// metrics, flags and synchronisation objects are made for concurrent use
+					ts := v.Type().String()
+					if strings.Contains(ts, "prometheus") || strings.Contains(ts, "sync.") || strings.Contains(ts, "expvar") {
+						return
+					}
+					nPV++
+					_, ok := allowedPV[v.Pkg().Name()+"."+v.Name()]
+					r.Check(ok, "C20.Q6", fi.Name(), "package-level variable "+v.Name()+" is not "+how, c.P.Pos(at.Pos()), allowedPV[v.Pkg().Name()+"."+v.Name()],
+						"the package-level variable "+v.Name()+" is "+how+" in code that runs on several goroutines (the state machine, the HTTP handlers) and for several server instances (the live one, the one Snapshot folds into): an unsynchronised write to shared memory")
+				}
+				ast.Inspect(fi.Body(), func(n ast.Node) bool {
+					switch x := n.(type) {
+					case *ast.AssignStmt:
+						if x.Tok == token.DEFINE {
+							return true
+						}
+						for _, l := range x.Lhs {
+							report(isPV(l), x, "written")
+						}
+					case *ast.IncDecStmt:
+						report(isPV(x.X), x, "written")
+					case *ast.UnaryExpr:
+						if x.Op == token.AND {
+							report(isPV(x.X), x, "handed out by address")
+						}
+					}
+					return true
+				})
+			}
+		}
+		r.Extra["package_level_writes_seen"] = nPV
+	}
 	r.Extra["lock_table"] = tableDesc
 	if len(r.Broken) > 0 {
 		return
